@@ -22,6 +22,7 @@
 -/
 import HotXL.Model.Eval
 import HotXL.Lemmas.Events
+import HotXL.Lemmas.Routes
 import HotXL.Props.C04
 import HotXL.Props.C19
 
@@ -547,5 +548,18 @@ example : applySetters (.num (.int 5)) [.blank, .blank] = .num (.int 5) := by rf
 example : applySetters (.num (.int 5)) [.bool true, .str []] = .str [] := by rfl
 
 end Examples
+
+/-! ### references as routes (DESIGN.md 1.7): a reference evaluates to what the host set for it -/
+
+/-- A cell reference evaluates to the value the host's listener set for the upper-cased label, a
+    range reference to the value set for some pair of corner labels — whatever the formula around it. -/
+theorem references_yield_host_values (env : Env) {l a b : List Char}
+    {row col sRow sCol eRow eCol : Cell.ParsedLabel}
+    (hl : Cell.extractLabel (Cell.upper l) = some (row, col))
+    (ha : Cell.extractLabel (Cell.upper a) = some (sRow, sCol))
+    (hb : Cell.extractLabel (Cell.upper b) = some (eRow, eCol)) :
+    ErrorFlow.outcome env (.cell l) = .ok (env.cellValue (Cell.upper l)) ∧
+    ∃ l1 l2 : List Char, ErrorFlow.outcome env (.range a b) = .ok (env.rangeValue l1 l2) :=
+  ⟨Routes.cell_route hl, Routes.range_route ha hb⟩
 
 end HotXL.Props.C10
